@@ -72,6 +72,17 @@ type expectation struct {
 	WildContent string `json:"wild_content,omitempty"`
 	// HTTPS: the host is served over https although it has no tls entry (ssl-always-add-https)
 	HTTPS bool `json:"https,omitempty"`
+	// Allowed: when set, any of these contents is accepted (Gateway listeners whose
+	// certificateRefs do not all resolve, or that reference another namespace)
+	Allowed []string `json:"allowed,omitempty"`
+	// Passthrough: ssl-passthrough host: no certificate of HAProxy is involved; Backend is
+	// where the raw TLS stream must go
+	Passthrough bool   `json:"passthrough,omitempty"`
+	Backend     string `json:"backend,omitempty"`
+	// CA: auth-tls: content hash of the ca.crt the crt-list line of the host must carry
+	CA string `json:"ca,omitempty"`
+	// Note: observations that are not failures
+	Note string `json:"note,omitempty"`
 }
 
 // view is the cluster seen by the oracle.
@@ -83,6 +94,8 @@ type view struct {
 	ingsSorted  []op
 	ruleHosts   map[string]bool
 	httpsAlways map[string]bool
+	ruleOwner   map[string]op // first ingress, in order, with a rule for the host
+	gateways    []op
 }
 
 func newView(c *cluster, defaultSecret string, crossNS bool) *view {
@@ -95,9 +108,26 @@ func newView(c *cluster, defaultSecret string, crossNS bool) *view {
 		}
 		return a.NS+"/"+a.Name < b.NS+"/"+b.Name
 	})
+	v.ruleOwner = map[string]op{}
+	v.gateways = c.ofKind("Gateway")
+	sort.SliceStable(v.gateways, func(i, j int) bool {
+		a, b := v.gateways[i], v.gateways[j]
+		if a.Stamp != b.Stamp {
+			return a.Stamp < b.Stamp
+		}
+		return a.NS+"/"+a.Name < b.NS+"/"+b.Name
+	})
 	for _, ing := range v.ingsSorted {
 		for _, h := range ing.Rules {
+			if h == "" {
+				if _, ok := v.ruleOwner[""]; !ok {
+					v.ruleOwner[""] = ing
+				}
+			}
 			if h != "" {
+				if _, ok := v.ruleOwner[h]; !ok {
+					v.ruleOwner[h] = ing
+				}
 				v.ruleHosts[h] = true
 				if ing.Ann["ssl-always-add-https"] == "true" {
 					v.httpsAlways[h] = true
@@ -171,6 +201,20 @@ func wildOf(name string) string {
 
 // expect: what the property says the SNI name must be served with.
 func (v *view) expect(name string) expectation {
+	if g, ok := v.expectGateway(name); ok {
+		return g
+	}
+	e := v.expectIngress(name)
+	if b, ok := v.passthrough(name); ok {
+		e.Passthrough, e.Backend = true, b
+		e.Class = "passthrough"
+	} else if v.ruleHosts[name] || v.winner(name) != nil {
+		e.CA = v.caOf(name)
+	}
+	return e
+}
+
+func (v *view) expectIngress(name string) expectation {
 	e := expectation{Content: v.defContent}
 	if w := wildOf(name); w != "" && w != name {
 		if d := v.winner(w); d != nil {
@@ -202,4 +246,159 @@ func (v *view) expect(name string) expectation {
 // effectiveKey: the secret whose content decides what name is served with ("" = none).
 func (v *view) effectiveKey(name string) string {
 	return v.expect(name).SecretKey
+}
+
+// declaring: the ingresses, in order, that name host in a rule or in a tls block (these are
+// the ones whose host scoped annotations apply to it).
+func (v *view) declaring(host string) []op {
+	var out []op
+	for _, ing := range v.ingsSorted {
+		found := false
+		for _, h := range ing.Rules {
+			found = found || h == host
+		}
+		for _, b := range ing.TLS {
+			for _, h := range b.Hosts {
+				found = found || h == host
+			}
+		}
+		if found {
+			out = append(out, ing)
+		}
+	}
+	return out
+}
+
+// annOf: the value of a host scoped annotation: the first declaring ingress that carries it.
+func (v *view) annOf(host, key string) (string, op, bool) {
+	for _, ing := range v.declaring(host) {
+		if val, ok := ing.Ann[key]; ok {
+			return val, ing, true
+		}
+	}
+	return "", op{}, false
+}
+
+// passthrough: the host asks for ssl-passthrough and has a root path.
+func (v *view) passthrough(host string) (string, bool) {
+	val, _, ok := v.annOf(host, "ssl-passthrough")
+	if !ok || val != "true" {
+		return "", false
+	}
+	owner, has := v.ruleOwner[host]
+	if !has {
+		return "", false
+	}
+	svc := owner.Svc
+	if svc == "" {
+		svc = "svc1"
+	}
+	port := "8080"
+	if svc == "svcp" {
+		port = "8443"
+	}
+	return owner.NS + "_" + svc + "_" + port, true
+}
+
+// caOf: the content hash of the CA file of an auth-tls host.
+func (v *view) caOf(host string) string {
+	val, ing, ok := v.annOf(host, "auth-tls-secret")
+	if !ok || val != "ca-1" {
+		return ""
+	}
+	return hashBytes(caSecret(ing.NS).Data["ca.crt"])
+}
+
+func hashBytes(b []byte) string {
+	s := sha256.Sum256(b)
+	return hex.EncodeToString(s[:8])
+}
+
+// certMatches: the certificate of the secret verifies the host name.
+func (v *view) certMatches(full, host string) bool {
+	i := strings.Index(full, "/")
+	o, ok := v.c.objs["Secret|"+full[:i]+"|"+full[i+1:]]
+	if !ok {
+		return false
+	}
+	crt, _ := secretData(o)
+	blk, _ := pem.Decode(crt)
+	if blk == nil {
+		return false
+	}
+	c, err := x509.ParseCertificate(blk.Bytes)
+	return err == nil && c.VerifyHostname(host) == nil
+}
+
+// listenersOf: the listeners whose hosts include name: the listener hostname if it has
+// one, else the hostnames of its route.
+func (v *view) listenersOf(name string) (ls []gwL, nss []string) {
+	for _, gw := range v.gateways {
+		for _, l := range gw.Listeners {
+			hosts := l.Routes
+			if l.Host != "" {
+				hosts = []string{l.Host}
+			}
+			for _, h := range hosts {
+				if h == name {
+					ls, nss = append(ls, l), append(nss, gw.NS)
+					break
+				}
+			}
+		}
+	}
+	return
+}
+
+// expectGateway: a host of Gateway listeners. One listener, all its certificateRefs in the
+// namespace of the Gateway and valid: the first one whose certificate verifies the host
+// name, else the first one. Otherwise (several listeners claim the host, a reference does
+// not resolve, a reference names another namespace - the converter has no ReferenceGrant
+// support and reads the name in the Gateway's namespace): the default certificate or any
+// valid secret of the Gateway's own namespace named by the listener, never anything else.
+func (v *view) expectGateway(name string) (expectation, bool) {
+	ls, nss := v.listenersOf(name)
+	if len(ls) == 0 {
+		return expectation{}, false
+	}
+	e := expectation{Class: "gateway"}
+	exact := len(ls) == 1
+	allowed := map[string]bool{v.defContent: true}
+	for i, l := range ls {
+		for _, c := range l.Certs {
+			local := c
+			if j := strings.Index(c, "/"); j >= 0 {
+				exact = false
+				e.Note = "cross-namespace certificateRef"
+				local = c[j+1:]
+			}
+			if h, ok := v.secretContent(nss[i] + "/" + local); ok {
+				allowed[h] = true
+			} else {
+				exact = false
+			}
+		}
+		if len(l.Certs) == 0 {
+			exact = false
+		}
+	}
+	if exact {
+		l, ns := ls[0], nss[0]
+		pick := ns + "/" + l.Certs[0]
+		for _, c := range l.Certs {
+			if v.certMatches(ns+"/"+c, name) {
+				pick = ns + "/" + c
+				break
+			}
+		}
+		e.Content, _ = v.secretContent(pick)
+		e.SecretKey = pick
+		return e, true
+	}
+	for k := range allowed {
+		e.Allowed = append(e.Allowed, k)
+	}
+	sort.Strings(e.Allowed)
+	e.Content = v.defContent
+	return e, true
 }
